@@ -7,7 +7,7 @@ import ast
 from ..cfg import build_cfg, calls_in, node_calls
 from ..core import Ctx, property_info, rule, share
 from ..model import AnalysisError, FuncInfo, anon_text, walk_no_nested
-from ..q import Dispatch, L, call_name_of, control_deps, entry_conditions, expand, leaves_at, node_containing, raw_forms, expand_at, flow_conditions, flows, forms, return_values, str_template, template_text, tests_like, A, MUTATORS, asrc, enum_members, is_self_attr, kwarg, root_name, stores, unparse
+from ..q import Dispatch, family, call_param, passes, value_texts, func_text, reach_table, reach_env, L, call_name_of, control_deps, entry_conditions, expand, leaves_at, node_containing, raw_forms, expand_at, flow_conditions, flows, forms, return_values, str_template, template_text, tests_like, A, MUTATORS, asrc, enum_members, is_self_attr, kwarg, root_name, stores, unparse
 
 DM = "xsdata.codegen.mappers.dtd"
 DP = "xsdata.codegen.parsers.dtd"
@@ -176,32 +176,38 @@ def occurrence_table(ctx: Ctx) -> None:
     ctx.ob("outer kwargs (an enclosing choice) override the group's own parameters and are passed down to both subtrees", ok, at=bc, construct="choice nesting", msg="nested groups lose the enclosing choice")
     bt = ctx.repo.func(f"{DM}:DtdMapper.build_content_tree")
     gt = build_cfg(bt.node)
-    sides = [(n, unparse(c.args[1]) if len(c.args) > 1 else "") for n in gt.stmts() for c in node_calls(n) if call_name_of(c) == "build_content"]
-    left = [n for n, a in sides if a.endswith(".left")]
-    right = [n for n, a in sides if a.endswith(".right")]
+    def _side(n, e) -> str:
+        """'left' / 'right' when the argument is content.left / content.right (through temporaries, getattr(content, "left"), an unrolled loop)."""
+        got = set()
+        for leaf in leaves_at(bt, n, e):
+            if isinstance(leaf, ast.Attribute):
+                got.add(leaf.attr)
+            elif isinstance(leaf, ast.Call) and call_name_of(leaf) == "getattr" and len(leaf.args) >= 2:
+                got |= {x.value for x in leaves_at(bt, n, leaf.args[1]) if isinstance(x, ast.Constant)}
+            else:
+                got.add("?")
+        return next(iter(got)) if len(got) == 1 else "?"
+
+    sides = [(n, _side(n, c.args[1]) if len(c.args) > 1 else "?") for n in gt.stmts() for c in node_calls(n) if call_name_of(c) == "build_content"]
+    left = [n for n, a in sides if a == "left"]
+    right = [n for n, a in sides if a == "right"]
     ok = len(left) == 1 and len(right) == 1 and right[0].id in gt.reachable([left[0].id]) and left[0].id not in gt.reachable([right[0].id])
-    if not ok:
-        # loop form: for side in ("left", "right"): child = getattr(content, side) ...
-        for lp in [x for x in walk_no_nested(bt.node) if isinstance(x, ast.For) and isinstance(x.iter, (ast.Tuple, ast.List))]:
-            names_ = [e.value for e in lp.iter.elts if isinstance(e, ast.Constant)]
-            if names_ == ["left", "right"] and any(isinstance(c, ast.Call) and call_name_of(c) == "getattr" for c in ast.walk(lp)) and any(isinstance(c, ast.Call) and call_name_of(c) == "build_content" for c in ast.walk(lp)):
-                ok = True
-    ctx.ob("build_content_tree visits left then right", ok, at=bt, construct="tree order", msg="child order changed")
+    if any(a == "?" for _, a in sides):
+        ok = None
+    if ok is not None:
+        ctx.ob("build_content_tree visits left then right", ok, at=bt, construct="tree order", msg="child order changed")
     be = ctx.repo.func(f"{DM}:DtdMapper.build_element")
     clones = [c for c in calls_in(be.node) if call_name_of(c) == "clone"]
-    idx = [v for st, tgt, v in stores(be.node) if isinstance(tgt, ast.Attribute) and tgt.attr == "index" and v is not None]
     gb = build_cfg(be.node)
-    idx_nodes = [gb.node_of(st) for st, tgt, v in stores(be.node) if isinstance(tgt, ast.Attribute) and tgt.attr == "index"]
     app = [n for n in gb.stmts() if any(isinstance(c.func, ast.Attribute) and c.func.attr == "append" and unparse(c.func.value).endswith(".attrs") for c in node_calls(n))]
-    # where the index value is computed: the store itself, or the definition of the temporary it stores
-    eval_nodes = []
-    for st_, tgt_, v_ in stores(be.node):
-        if isinstance(tgt_, ast.Attribute) and tgt_.attr == "index" and v_ is not None:
-            n_ = gb.node_of(st_)
-            chain_ = [c for _leaf, ch in flows(be, n_, v_) for c in ch] if n_ is not None else []
-            eval_nodes.append(chain_[-1] if chain_ else n_)
-    ok = bool(clones) and len(idx) == 1 and A("len(target.attrs)") in {A(x) for x in raw_forms(be, idx_nodes[0], idx[0])} and bool(app) and all(
-        i is not None and a.id in gb.reachable([i.id]) and i.id not in gb.reachable([a.id]) for i in eval_nodes for a in app)
+    # the index given to the new attr: a store into .index, or the index= argument of the constructor; evaluated where its value is computed
+    idx_sites = [(gb.node_of(st_), v_) for st_, tgt_, v_ in stores(be.node) if isinstance(tgt_, ast.Attribute) and tgt_.attr == "index" and v_ is not None]
+    idx_sites += [(node_containing(gb, c), kwarg(c, "index")) for c in calls_in(be.node) if call_name_of(c) == "Attr" and kwarg(c, "index") is not None]
+    ok = bool(clones) and len(idx_sites) == 1 and bool(app)
+    for n_, v_ in idx_sites[:1]:
+        chain_ = [c for _leaf, ch in flows(be, n_, v_) for c in ch] if n_ is not None else []
+        ev = chain_[-1] if chain_ else n_
+        ok = ok and ev is not None and A("len(target.attrs)") in {A(x) for x in raw_forms(be, n_, v_)} and all(a.id in gb.reachable([ev.id]) and (ev.id == a.id or ev.id not in gb.reachable([a.id])) for a in app)
     ctx.ob("each element attr gets a clone of the restrictions and the next index (len(target.attrs) before it is appended)", ok, at=be, construct="element attr", msg="restrictions shared / index wrong")
 
 
@@ -326,16 +332,22 @@ def send_wiring(ctx: Ctx) -> None:
     data_leaves = hdr_leaves = []
     if ok:
         n, c = posts[0]
-        ok = len(c.args) == 1 and "self.config.location" in raw_forms(fi, n, c.args[0])
-        data_leaves = [leaf for leaf, _ in flows(fi, n, kwarg(c, "data"))] if kwarg(c, "data") is not None else []
-        hdr_leaves = [leaf for leaf, _ in flows(fi, n, kwarg(c, "headers"))] if kwarg(c, "headers") is not None else []
-    pay = bool(data_leaves) and all(isinstance(x, ast.Call) and unparse(x.func) == "self.prepare_payload" and [unparse(a) for a in x.args] == ["obj"] for x in data_leaves)
-    hdr = bool(hdr_leaves) and all(isinstance(x, ast.Call) and unparse(x.func) == "self.prepare_headers" and len(x.args) == 1 and any(isinstance(y, ast.Name) and y.id == "headers" for y in ast.walk(x.args[0])) for x in hdr_leaves)
+        ok = "self.config.location" in value_texts(fi, n, call_param(ctx, fi, c, "url") or (c.args[0] if c.args else None))
+        d_arg, h_arg = call_param(ctx, fi, c, "data"), call_param(ctx, fi, c, "headers")
+        data_leaves = [(leaf, chain[-1] if chain else n) for leaf, chain in flows(fi, n, d_arg)] if d_arg is not None else []
+        hdr_leaves = [(leaf, chain[-1] if chain else n) for leaf, chain in flows(fi, n, h_arg)] if h_arg is not None else []
+    pay = bool(data_leaves) and all(isinstance(x, ast.Call) and unparse(x.func) == "self.prepare_payload" and len(x.args) == 1 and {unparse(y) for y in leaves_at(fi, w, x.args[0])} == {"obj"} for x, w in data_leaves)
+
+    def _caller_headers(x: ast.Call, w) -> bool:
+        lv = leaves_at(fi, w, x.args[0])
+        return any(isinstance(y, ast.Name) and y.id == "headers" for y in lv) and all((isinstance(y, ast.Name) and y.id == "headers") or (isinstance(y, ast.Dict) and not y.keys) for y in lv)
+
+    hdr = bool(hdr_leaves) and all(isinstance(x, ast.Call) and unparse(x.func) == "self.prepare_headers" and len(x.args) == 1 and _caller_headers(x, w) for x, w in hdr_leaves)
     ctx.ob("the posted data is exactly self.prepare_payload(obj)", pay, at=fi, construct="payload prepared", msg="payload not prepared from the request object (or modified after preparation)")
     ctx.ob("the posted headers are exactly self.prepare_headers(<caller headers or {}>)", hdr, at=fi, construct="headers prepared", msg="headers not prepared (or modified after preparation)")
     ctx.ob("transport.post(config.location, data=<prepared payload>, headers=<prepared headers>)", ok and pay and hdr, at=fi, node=posts[0][1] if posts else None, construct="post wiring", msg="posts something else than the prepared payload/headers")
     rv = [(r, leaf) for r in g.returns() for leaf, _ in flows(fi, r, r.ast.value)]
-    okr = bool(rv) and all(isinstance(v, ast.Call) and unparse(v.func) == "self.parser.from_bytes" and len(v.args) == 2 and unparse(v.args[1]) == "self.config.output"
+    okr = bool(rv) and all(isinstance(v, ast.Call) and unparse(v.func) == "self.parser.from_bytes" and len(v.args) == 2 and "self.config.output" in value_texts(fi, r, v.args[1])
                            and all(isinstance(x, ast.Call) and unparse(x.func) == "self.transport.post" for x, _ in flows(fi, r, v.args[0])) for r, v in rv)
     ctx.ob("returns parser.from_bytes(<response of the post>, config.output)", okr, at=fi, construct="response parsing", msg="response parsed into another class")
 
@@ -515,17 +527,16 @@ def emitted_head_is_imported_name(ctx: Ctx) -> None:
     ctx.ob("enum members are emitted as <class __qualname__>.<member name>", ok, at=ro, node=ey[0].ast if ey else None, construct="enum head",
            msg="str(member) uses the bare class name: a member of a nested enum is emitted as 'Kind.A' while only the outer class is imported (NameError)")
     bi = cls_.methods["build_imports"]
-    stmts = _import_statements(bi)
+    stmts = _import_statements(ctx, bi)
     froms = [x for x in stmts if template_text(x[0]).startswith("from {} import {}")]
-    ctx.ob("build_imports emits `from <module> import <name>` lines", len(froms) >= 1, at=bi, construct="import form", msg=f"import statements {[template_text(t) for t, _, _ in stmts]}")
-    for t, node, conds in froms:
+    ctx.ob("build_imports emits `from <module> import <name>` lines", len(froms) >= 1, at=bi, construct="import form", msg=f"import statements {[template_text(x[0]) for x in stmts]}")
+    whole = A(" ".join(unparse(f.node) for f in family(ctx.repo, bi)))
+    for t, node, conds, fx in froms:
         holes = [v for k, v in t if k == "hole"]
-        gb = build_cfg(bi.node)
-        mod_forms = forms(bi, node, holes[0])
+        mod_forms = forms(fx, node, holes[0])
         ctx.ob("build_imports takes the module from tp.__module__", "_.__module__" in mod_forms, at=bi, construct="import module source", msg=f"module is {sorted(mod_forms)[:2]}")
-        name_leaves = [leaf for leaf, _ in flows(bi, node, holes[1])]
-        name_src = " ".join(sorted({x for leaf in name_leaves for x in forms(bi, node, leaf)} | {anon_text(leaf, bi.node) for leaf in name_leaves}))
-        whole = A(unparse(bi.node))
+        name_leaves = [leaf for leaf, _ in flows(fx, node, holes[1])]
+        name_src = " ".join(sorted({x for leaf in name_leaves for x in forms(fx, node, leaf)} | {anon_text(leaf, fx.node) for leaf in name_leaves}))
         top = any(A(p) in whole for p in (".split('.')[0]", ".split('.',1)[0]", ".partition('.')[0]", '.split(".")[0]', '.split(".",1)[0]', '.partition(".")[0]'))
         contraband = [p for p in ("rsplit", "rpartition", ".__name__", "[-1]", "[-2]") if p in whole]
         ctx.ob("build_imports takes the name from tp.__qualname__ and imports its top-level (first) component", "__qualname__" in name_src + whole and top and not contraband, at=bi, construct="import top-level",
@@ -535,17 +546,25 @@ def emitted_head_is_imported_name(ctx: Ctx) -> None:
     ctx.ob("build_imports returns the sorted, de-duplicated lines", bool(rv) and all(any(isinstance(c, ast.Call) and call_name_of(c) == "sorted" for c in ast.walk(v)) for v in rv), at=bi, construct="imports sorted", msg="import order depends on set iteration")
 
 
-def _import_statements(bi: FuncInfo):
-    """(template, cfg node of the .add call, flow conditions) for every string added to the import set."""
-    g = build_cfg(bi.node)
+def _import_statements(ctx: Ctx, bi: FuncInfo):
+    """(template, cfg node, flow conditions) for every import statement build_imports can emit: the strings added to the import set, and the
+    strings returned by the helpers it still calls (an extracted per-type helper used inside a comprehension)."""
     out = []
-    for n in g.stmts():
-        for c in node_calls(n):
-            if isinstance(c.func, ast.Attribute) and c.func.attr == "add" and len(c.args) == 1:
-                for leaf, chain in flows(bi, n, c.args[0]):
+    for fi in family(ctx.repo, bi):
+        g = build_cfg(fi.node)
+        for n in g.stmts():
+            for c in node_calls(n):
+                if isinstance(c.func, ast.Attribute) and c.func.attr == "add" and len(c.args) == 1:
+                    for leaf, chain in flows(fi, n, c.args[0]):
+                        t = str_template(leaf)
+                        if t is not None:
+                            out.append((t, n, flow_conditions(fi, n, chain), fi))
+        if fi is not bi:
+            for r in g.returns():
+                for leaf, chain in flows(fi, r, r.ast.value) if r.ast.value is not None else []:
                     t = str_template(leaf)
-                    if t is not None:
-                        out.append((t, n, flow_conditions(bi, n, chain)))
+                    if t is not None and any(k == "lit" and "import" in str(v) for k, v in t):
+                        out.append((t, r, flow_conditions(fi, r, chain), fi))
     return out
 
 
@@ -630,12 +649,12 @@ def container_delimiters(ctx: Ctx) -> None:
 def module_qualified_reprs(ctx: Ctx) -> None:
     """Types whose repr is module-qualified (datetime.date/time/datetime) get `import module`, not `from module import Name`."""
     fi = ctx.repo.func(f"{PC}:PycodeSerializer.build_imports")
-    stmts = _import_statements(fi)
-    plain = [(t, n, c) for t, n, c in stmts if template_text(t).strip() == "import datetime"]
+    stmts = _import_statements(ctx, fi)
+    plain = [(t, n, c) for t, n, c, _ in stmts if template_text(t).strip() == "import datetime"]
     is_dt = lambda conds, want: any("'datetime'" in txt and (("==" in txt and pol == want) or ("!=" in txt and pol != want) or ("in(" in txt and "notin" not in txt and pol == want)) for txt, pol in conds)  # noqa: E731
     ctx.ob("datetime values get `import datetime` (their repr is datetime.date(...))", bool(plain) and all(is_dt(c, True) for _, _, c in plain), at=fi, construct="datetime import",
            msg="`from datetime import date` does not make `datetime.date(2020, 1, 2)` evaluable")
-    froms = [(t, n, c) for t, n, c in stmts if template_text(t).startswith("from {} import")]
+    froms = [(t, n, c) for t, n, c, _ in stmts if template_text(t).startswith("from {} import")]
     ctx.ob("`from datetime import ...` is not emitted for datetime values", bool(froms) and all(is_dt(c, False) for _, _, c in froms), at=fi, construct="datetime from-import excluded",
            msg="a from-import of datetime.datetime shadows the module name")
     lv = ctx.repo.func("xsdata.utils.objects:literal_value")
@@ -733,3 +752,29 @@ def per_operation_configuration(ctx: Ctx) -> None:
     ctx.ob("map_binding builds each operation's configuration from a copy of the binding configuration", bool(per_op) and not passes_shared and all(c.func.value.id in copies for c in upd) and bool(copies), at=mb, construct="operation config copy",
            msg="operation attributes are merged into the shared binding configuration")
     ctx.note("C17.R5 loop-carried updates", n)
+
+from .c12 import cache_holds_the_parsed_classes  # noqa: E402
+
+share("C16", "C16.R6", cache_holds_the_parsed_classes)  # a second run over the same DTD (with --cache) must generate the same, working code
+
+
+@rule("C16.R7")
+def dtd_declarations_override_builtin_prefixes(ctx: Ctx) -> None:
+    """DtdParser.build_ns_map: the xmlns declarations of the DTD win over the built-in prefixes (xs, xsi, xlink, xml): the built-ins are put
+    into the map first and the declared bindings are stored over them - never the other way round."""
+    fi = ctx.repo.func(f"{DP}:DtdParser.build_ns_map")
+    g = build_cfg(fi.node)
+    common = [n for n in g.stmts() if n.ast is not None and any(call_name_of(c) == "common" for c in node_calls(n))]
+    decl = [g.node_of(st) for st, tgt, v in stores(fi.node) if isinstance(tgt, ast.Subscript) and v is not None and any(isinstance(x, ast.Attribute) and x.attr == "default_value" for leaf in leaves_at(fi, st, v) for x in ast.walk(leaf))]
+    decl = [d for d in decl if d is not None]
+    if not common or not decl:
+        ctx.abstain("built-in / declared prefix writes of build_ns_map", at=fi)
+        return
+    for cnode in common:
+        late = any(cnode.id in g.reachable([d.id]) for d in decl)
+        soft = any(isinstance(c.func, ast.Attribute) and c.func.attr == "setdefault" for c in node_calls(cnode)) or any(isinstance(x, ast.Dict) and None in x.keys for x in ast.walk(cnode.ast))
+        if late and soft:
+            ctx.abstain("built-in prefixes added after the declared ones in a non-overriding form", at=fi)
+            continue
+        ctx.ob("build_ns_map: the built-in prefixes are in the map before the DTD's own xmlns declarations are stored", not late, at=fi, node=cnode.ast, construct="declared prefixes win",
+               msg="the built-in bindings are written after (over) the declared ones: a DTD that binds xlink / xs / xsi to another URI gets fields in the wrong namespace and its valid documents are rejected")
